@@ -15,8 +15,8 @@ func (mgr *Manager) ExtendDuration(target key.TargetID, modifier key.Modifier, a
 }
 
 func (mgr *Manager) ExtendCount(target key.TargetID, modifier key.Modifier, amt float64) {
-	// update counts
-	for _, mod := range mgr.targets[target] {
+	// update counts (over a copy: a listener may detach modifiers of this target while we iterate)
+	for _, mod := range mgr.itr(target) {
 		if mod.name != modifier {
 			continue
 		}
